@@ -255,6 +255,27 @@ example :
        (⟨4, 1⟩, [3]), (⟨8, 0⟩, [3]), (⟨5, 0⟩, [3]), (⟨10, 1⟩, [4, 5]), (⟨13, 0⟩, [4, 5]),
        (⟨11, 1⟩, [4, 5]), (⟨14, 0⟩, [4, 5]), (⟨12, 0⟩, [4, 5])] := by decide +kernel
 
+/-- the model with component-local state (`View.scope`, `View.forRows`: outside the class of the theorems,
+checked by correspondence): every row's component body creates a memo over an outer signal and the key;
+rows that the keyed diff keeps (`[1,2,3] → [3,1]`) keep reacting through it when the outer signal is
+written afterwards -/
+def rowProg : Program :=
+  { defs := [.sig 0, .sig 3],
+    view := .elem "ul" []
+      (.forRows (.rd true 0) [[1, 2, 3], [3, 1]] (.scope 0 (.memo (.add (.rd true 1) Expr.key)) (.dynText (Expr.loc 0)))) }
+
+example : rowProg.view.wfX 2 0 false = true ∧
+    (run rowProg [.idle]).dom =
+      [.open "ul" [], .open "li" [], .text (.lit "1"), .text (.int 4), .close,
+       .open "li" [], .text (.lit "2"), .text (.int 5), .close,
+       .open "li" [], .text (.lit "3"), .text (.int 6), .close, .comment, .close] ∧
+    (run rowProg [.idle, .set 0 1, .idle, .set 1 5, .idle]).dom =
+      [.open "ul" [], .open "li" [], .text (.lit "3"), .text (.int 8), .close,
+       .open "li" [], .text (.lit "1"), .text (.int 6), .close, .comment, .close] ∧
+    (run rowProg [.idle, .set 0 1, .idle, .set 1 5, .idle]).dom =
+      renderL (run rowProg [.idle, .set 0 1, .idle, .set 1 5, .idle]).env (fun _ _ => none) rowProg.view [] 0 [] ∧
+    (run rowProg [.idle, .set 0 1, .idle]).dead.length = 1 := by decide +kernel
+
 /-! non-vacuity: a program with a reactive attribute, class, style and two dynamic texts with a
 dynamic dependency; a history with partial polling; the hypotheses hold, the DOM changes -/
 
